@@ -59,24 +59,25 @@ func tv(t string) SV { return SV{T: t} }
 // ---------------------------------------------------------------------------------------------
 
 type Exec struct {
-	c        *Ctx
-	P        *Program
-	S        *Specs
-	modsets  map[string]map[string]bool
-	discover bool
-	maxDepth int
-	root     *Frame
-	rootW0   string // watermark at entry of the function under contract
-	rootOld  *State
-	views    []view
-	inlined  map[string]bool
-	havocked map[string]bool
-	usedStub map[string]bool
+	c         *Ctx
+	P         *Program
+	S         *Specs
+	modsets   map[string]map[string]bool
+	discover  bool
+	maxDepth  int
+	root      *Frame
+	rootW0    string // watermark at entry of the function under contract
+	cur       *Frame // frame whose instruction is being executed
+	rootOld   *State
+	views     []view
+	inlined   map[string]bool
+	havocked  map[string]bool
+	usedStub  map[string]bool
 	sentinels []string
-	fnAt     map[string]*FnVal
-	nowrap   bool
-	heapRegs map[string]func(*Ctx)
-	varargs  map[string]map[string]SV // alloc ref of a [N]any array -> constant index -> value stored there
+	fnAt      map[string]*FnVal
+	nowrap    bool
+	heapRegs  map[string]func(*Ctx)
+	varargs   map[string]map[string]SV // alloc ref of a [N]any array -> constant index -> value stored there
 }
 
 type view struct {
@@ -105,37 +106,41 @@ type loopInfo struct {
 	ordinal  int
 	phis     []*ssa.Phi
 	havocEnv map[ssa.Value]SV
-	headSt   *State // havocked state at header
+	headSt   *State         // havocked state at header
+	entrySt  *State         // state on first arrival at the header (what pre(...) in an invariant refers to)
+	targets  []assignTarget // evaluated `loop N assigns` targets (nil: no loop frame given)
+	framed   bool
+	entryWm  string
 	dec0     string
 	spec     *LoopSpec
 	reach    string
 }
 
 type Frame struct {
-	x        *Exec
-	fn       *ssa.Function
-	prefix   string
-	env      map[ssa.Value]SV
-	depth    int
-	stack    []string
-	contract *Contract
-	isRoot   bool
-	reach    map[*ssa.BasicBlock]string
-	out      map[*ssa.BasicBlock]*State
-	edge     map[[2]int]string // (from,to) -> guard (reach_from && cond)
-	rets     []retInfo
-	defers   []deferInfo
-	loops    map[*ssa.BasicBlock]*loopInfo
-	backEdge map[[2]int]bool
-	entrySt  *State
-	params   map[string]SV
+	x          *Exec
+	fn         *ssa.Function
+	prefix     string
+	env        map[ssa.Value]SV
+	depth      int
+	stack      []string
+	contract   *Contract
+	isRoot     bool
+	reach      map[*ssa.BasicBlock]string
+	out        map[*ssa.BasicBlock]*State
+	edge       map[[2]int]string // (from,to) -> guard (reach_from && cond)
+	rets       []retInfo
+	defers     []deferInfo
+	loops      map[*ssa.BasicBlock]*loopInfo
+	backEdge   map[[2]int]bool
+	entrySt    *State
+	params     map[string]SV
 	paramSorts map[string]string
-	parent   *Frame
-	callBlock *ssa.BasicBlock
-	curBlock *ssa.BasicBlock
-	loopBody map[*ssa.BasicBlock]map[*ssa.BasicBlock]bool
-	nowrap   bool
-	debugAll map[string][]ssa.Value // source name -> values bound to it (from DebugRef), in execution order
+	parent     *Frame
+	callBlock  *ssa.BasicBlock
+	curBlock   *ssa.BasicBlock
+	loopBody   map[*ssa.BasicBlock]map[*ssa.BasicBlock]bool
+	nowrap     bool
+	debugAll   map[string][]ssa.Value // source name -> values bound to it (from DebugRef), in execution order
 }
 
 func (f *Frame) c() *Ctx { return f.x.c }
@@ -264,10 +269,39 @@ func (f *Frame) store(st *State, p SV, t types.Type, v string, guard, where stri
 // rng, when given, is the half-open index range [rng[0], rng[1]) of the backing array that is written; it is
 // compared with the window of an `assigns s[*]` target (the elements s[0..len(s)) only).
 func (x *Exec) frameCheck(st *State, heap, ref, guard, where string, rng ...string) {
-	if x.root == nil || x.root.contract == nil || len(x.root.contract.Assigns) == 0 || x.discover {
+	if strings.HasPrefix(heap, "ghost:") || x.discover {
 		return
 	}
-	if strings.HasPrefix(heap, "ghost:") {
+	// loop frames of every enclosing loop that states one (through inlined frames)
+	for fr, blk := x.cur, (*ssa.BasicBlock)(nil); fr != nil; fr, blk = fr.parent, fr.callBlock {
+		if blk == nil {
+			blk = fr.curBlock
+		}
+		for h, li := range fr.loops {
+			if li == nil || !li.framed || fr.loopBody[h] == nil || !fr.loopBody[h][blk] {
+				continue
+			}
+			allowed := []string{fmt.Sprintf("(>= %s %s)", ref, li.entryWm)}
+			if strings.HasPrefix(heap, "E:") {
+				allowed = append(allowed, eq(ref, "0"))
+			}
+			var tags []string
+			for _, cl := range li.spec.Assigns {
+				tags = append(tags, cl.Tags...)
+			}
+			for _, tgt := range li.targets {
+				if tgt.heap == heap || tgt.heap == "*" {
+					if tgt.lo == "" {
+						allowed = append(allowed, eq(ref, tgt.ref))
+					} else if len(rng) == 2 {
+						allowed = append(allowed, and(eq(ref, tgt.ref), x.c.simplify("(<= "+tgt.lo+" "+rng[0]+")"), x.c.simplify("(<= "+rng[1]+" "+tgt.hi+")")))
+					}
+				}
+			}
+			x.c.oblige(fmt.Sprintf("loop%d.assigns", li.ordinal), tags, guard, or(allowed...), where, "write to "+heap+" inside the loop must be to memory allocated in the loop or to a loop-assignable location")
+		}
+	}
+	if x.root == nil || x.root.contract == nil || len(x.root.contract.Assigns) == 0 {
 		return
 	}
 	allowed := []string{fmt.Sprintf("(>= %s %s)", ref, x.rootW0)}
@@ -459,6 +493,9 @@ func (f *Frame) define(v ssa.Value, sv SV, st *State, guard string) {
 		c.assert(eq(name, sv.T))
 		if strings.HasPrefix(sv.T, "(mk-slice ") {
 			c.recordSlice(name, sv.T)
+		}
+		if r, ok := c.bitFoot[sv.T]; ok {
+			c.noteBits(name, r[0], r[1])
 		}
 		sv.T = name
 	}
@@ -769,11 +806,32 @@ func (f *Frame) enterLoop(li *loopInfo, b *ssa.BasicBlock, entry *State, reach s
 		gs, vs := f.phiEdgeVals(b, phi, false, entry)
 		entryEnv[phi] = f.mergeSV(phi.Type(), func(k int) (string, SV) { return gs[k], vs[k] }, len(vs), f.prefix+"/"+phi.Name()+".entry")
 	}
+	li.entrySt = entry.clone()
+	li.entryWm = entry.wm()
+	li.targets, li.framed = nil, false
+	if li.spec != nil && len(li.spec.Assigns) > 0 && !x.discover {
+		li.framed = true
+		env := f.specEnv(entry, f.entrySt, entryEnv)
+		for _, cl := range li.spec.Assigns {
+			txt := strings.TrimSpace(cl.Text)
+			if txt == "nothing" || txt == "fresh" || txt == "" {
+				continue
+			}
+			for _, part := range splitTop(txt, ',') {
+				ts, err := env.assignTarget(strings.TrimSpace(part))
+				if err != nil {
+					panic(specError{fmt.Sprintf("%s: loop assigns %q: %v", cl.Src, part, err)})
+				}
+				li.targets = append(li.targets, ts...)
+			}
+		}
+	}
 	// invariant on entry
 	if li.spec != nil && !x.discover {
 		for _, inv := range li.spec.Invariants {
 			env := f.specEnv(entry, f.entrySt, entryEnv)
 			env.loopHeader = b
+			env.preSt = li.entrySt
 			t := env.boolClause(inv)
 			c.oblige(fmt.Sprintf("loop%d.inv-entry", li.ordinal), inv.Tags, reach, t, inv.Src, inv.Text)
 		}
@@ -805,6 +863,24 @@ func (f *Frame) enterLoop(li *loopInfo, b *ssa.BasicBlock, entry *State, reach s
 			c.assert(fmt.Sprintf("(>= %s %s)", nv, entry.get(wmKey)))
 		}
 		hs.heap[k] = nv
+		if li.framed && (strings.HasPrefix(k, "E:") || strings.HasPrefix(k, "F:") || strings.HasPrefix(k, "B:")) {
+			// loop frame (justified by the loopN.assigns obligations on every write in the body): objects that
+			// existed when the loop was entered and are not assign targets are unchanged; targets given with an
+			// element window are unchanged outside it.
+			old := entry.get(k)
+			cond := []string{"(< r! " + li.entryWm + ")"}
+			for _, t := range li.targets {
+				if t.heap == k || t.heap == "*" {
+					cond = append(cond, "(not (= r! "+t.ref+"))")
+					if t.lo != "" {
+						c.assert(fmt.Sprintf("(forall ((k! Int)) (! (=> (or (< k! %s) (>= k! %s)) (= (select (select %s %s) k!) (select (select %s %s) k!))) :pattern ((select (select %s %s) k!))))",
+							t.lo, t.hi, nv, t.ref, old, t.ref, nv, t.ref))
+					}
+				}
+			}
+			c.quant = true
+			c.assert(fmt.Sprintf("(forall ((r! Int)) (! (=> %s (= (select %s r!) (select %s r!))) :pattern ((select %s r!))))", and(cond...), nv, old, nv))
+		}
 	}
 	for _, k := range names {
 		if k != wmKey {
@@ -849,11 +925,13 @@ func (f *Frame) enterLoop(li *loopInfo, b *ssa.BasicBlock, entry *State, reach s
 		for _, inv := range li.spec.Invariants {
 			env := f.specEnv(hs, f.entrySt, nil)
 			env.loopHeader = b
+			env.preSt = li.entrySt
 			c.assume(reach, env.boolClause(inv))
 		}
 		if li.spec.Decreases != nil {
 			env := f.specEnv(hs, f.entrySt, nil)
 			env.loopHeader = b
+			env.preSt = li.entrySt
 			li.dec0 = env.intClause(li.spec.Decreases)
 		}
 	}
@@ -926,12 +1004,14 @@ func (f *Frame) backEdgeObligations(li *loopInfo, from *ssa.BasicBlock, st *Stat
 	for _, inv := range li.spec.Invariants {
 		env := f.specEnv(st, f.entrySt, backEnv)
 		env.loopHeader = b
+		env.preSt = li.entrySt
 		env.prove = true
 		c.oblige(fmt.Sprintf("loop%d.inv-preserved", li.ordinal), inv.Tags, guard, env.boolClause(inv), inv.Src, inv.Text)
 	}
 	if li.spec.Decreases != nil {
 		env := f.specEnv(st, f.entrySt, backEnv)
 		env.loopHeader = b
+		env.preSt = li.entrySt
 		d1 := env.intClause(li.spec.Decreases)
 		c.oblige(fmt.Sprintf("loop%d.decreases", li.ordinal), li.spec.Decreases.Tags, guard,
 			fmt.Sprintf("(and (>= %s 0) (< %s %s))", li.dec0, d1, li.dec0), li.spec.Decreases.Src, li.spec.Decreases.Text)
@@ -943,7 +1023,9 @@ func (f *Frame) execBlock(b *ssa.BasicBlock, st *State, reach string, li *loopIn
 		if _, ok := in.(*ssa.Phi); ok && li != nil {
 			continue // havocked in enterLoop
 		}
+		f.x.cur, f.curBlock = f, b
 		f.execInstr(in, st, reach)
+		f.x.cur, f.curBlock = f, b
 	}
 	f.out[b] = st
 	// terminator
